@@ -16,6 +16,7 @@ from ..rules import pyrules
 
 
 EXTRAS = [
+    lambda rep, fb, tier: __import__("vf.rules.pyrules", fromlist=["x"]).rule_py_arm_store(rep),
     lambda rep, fb, tier: __import__("vf.rules.pyrules", fromlist=["x"]).rule_py_first_only_check(rep),
     lambda rep, fb, tier: __import__("vf.rules.pyrules", fromlist=["x"]).rule_py_record_field_trim(rep),
     lambda rep, fb, tier: __import__("vf.rules.pyrules", fromlist=["x"]).rule_py_behaviorof_args(rep),
